@@ -57,6 +57,8 @@ def gen_spec(rng, rich=True):
         n = rng.choice(nodes)["name"]
         kind = rng.choice(["file", "file", "file", "dot", "lock", "temp", "symlink", "symdir", "placeholder", "deep"])
         acq = rng.choice(acqs)
+        if kind in ("dot", "lock", "placeholder") and rng.random() < 0.5:
+            acq = acq + "/" + rng.choice(["raw", "d/e"])  # the same artefacts inside a sub-directory of the acquisition
         if kind == "file":
             path = f"{acq}/new{j}"
             unreg.append({"node": n, "path": path, "tag": 800 + j, "size": 9})
@@ -84,7 +86,7 @@ def gen_spec(rng, rich=True):
             unreg.append({"node": n, "path": f"{acq}/ldir{j}", "kind": "symlink", "target": "@OUT"})
         if rng.random() < 0.7:
             scan = rng.random() < 0.4
-            ireqs.append({"node": n, "path": (acq if scan else path), "recurse": scan, "register": rng.random() < 0.85})
+            ireqs.append({"node": n, "path": (acq.split("/")[0] if scan else path), "recurse": scan, "register": rng.random() < 0.85})
     if rng.random() < 0.15:
         ireqs.append({"node": rng.choice(nodes)["name"], "path": rng.choice(["/abs/path", "../up", "acq1/../x", ".", "ALPENHORN_NODE"]), "recurse": rng.random() < 0.5})
     return {"groups": groups, "nodes": nodes, "acqs": acqs, "files": files, "copies": copies, "reqs": reqs, "rules": rules, "unregistered": unreg, "ireqs": ireqs}
